@@ -234,23 +234,21 @@ Print Assumptions C15_reservoir_run_picks.
 (* ---- where the offered paths come from: the Pather (net/scion/pather.go, Model/Pather.v) ----
    A path is (identity, fingerprint); `answers` describes the daemon at a refresh, dstIAs the destinations the
    Pather was started with (timeservice.go: one entry per configured SCION server and peer).
-   After a refresh that gets the local IA, Paths(q) is the daemon's answer for q once per occurrence of q in
-   dstIAs; a refresh that does not get the local IA changes nothing. *)
+   After a refresh that gets the local IA, Paths(q) is the daemon's answer for q - once, however often q is
+   listed (each destination AS is looked up once) - or nothing if q is not a destination; a refresh that does not
+   get the local IA changes nothing. *)
 Theorem C15_pather_paths : forall st dstIAs answers q,
-  pather_paths (pather_update st true dstIAs answers) q
-    = flat_map (fun d => if d =? q then daemon_paths answers q else []) dstIAs
-  /\ length (pather_paths (pather_update st true dstIAs answers) q)
-    = (count_occ Z.eq_dec dstIAs q * length (daemon_paths answers q))%nat
+  pather_paths (pather_update st true dstIAs answers) q = (if zmemb q dstIAs then daemon_paths answers q else [])
   /\ pather_update st false dstIAs answers = st.
-Proof. intros. split; [apply pather_paths_update|split; [apply pather_paths_count|reflexivity]]. Qed.
+Proof. intros. split; [apply pather_paths_update|reflexivity]. Qed.
 Print Assumptions C15_pather_paths.
 
-(* With pairwise distinct destination IAs, after any sequence of refreshes Paths(q) is exactly what the daemon
-   last reported for q (truth_update: the answer for q of the last refresh that got the local IA, nothing if the
-   lookup failed or q is not a destination). *)
-Theorem C15_pather_offers_daemon_paths : forall dstIAs q l, NoDup dstIAs ->
+(* After any sequence of refreshes Paths(q) is exactly what the daemon last reported for q (truth_update: the
+   answer for q of the last refresh that got the local IA, nothing if the lookup failed or q is not a
+   destination), for every list of destinations. *)
+Theorem C15_pather_offers_daemon_paths : forall dstIAs q l,
   pather_paths (refreshes [] dstIAs l) q = truths [] dstIAs q l.
-Proof. intros dstIAs q l Hn. apply pather_offers_daemon_paths; [exact Hn|reflexivity]. Qed.
+Proof. intros dstIAs q l. apply pather_offers_daemon_paths. reflexivity. Qed.
 Print Assumptions C15_pather_offers_daemon_paths.
 
 (* Then the participating clients of a round probe over pairwise distinct paths of the daemon (identities), each
@@ -349,19 +347,23 @@ Example C15_example_pather :
   /\ pather_update st false [7; 8] [] = st /\ truth_update [(3, 3)] true [7; 8] ans 7 = [(0, 5); (1, 6)].
 Proof. vm_compute. repeat split; reflexivity. Qed.
 
-(* the hypothesis `NoDup dstIAs` is needed (a defect of /repo, kept as case kind mp.pather.dupia): with the
-   server's IA listed twice - two configured servers in the same AS - the one path the daemon reports is offered
-   twice, two of the three clients probe over it (identity 0 for both), and the oracle rejects the round *)
+(* the server's IA listed twice - two configured servers in the same AS: the one path the daemon reports is
+   offered once, one of the three clients probes over it (before 6f9a1f9 of /repo it was offered twice and two
+   clients shared it) *)
 Example C15_example_pather_dup :
   let ans := [{| an_ia := 7; an_ok := true; an_paths := [(0, 5)] |}] in
   let st := pather_update [] true [7; 7] ans in
   let cs := [fresh_client false; fresh_client false; fresh_client true] in
-  pather_paths st 7 = [(0, 5); (0, 5)]
+  pather_paths st 7 = [(0, 5)]
   /\ match pather_round st 7 cs 4294967295 [] [] [[11]; [22]; [33]] with
      | ROk obs off _ =>
-         map co_path obs = [Some 0%nat; Some 1%nat; None] /\ off = 16
+         map co_path obs = [Some 0%nat; None; None] /\ off = 11
          /\ C15_pather_round_ok (daemon_paths ans 7)
-              (map (hops_out (map fst (pather_paths st 7))) (to_cobs_list [true; true; true] cs obs)) 0 off = false
+              (map (hops_out (map fst (pather_paths st 7))) (to_cobs_list [true; true; true] cs obs)) 0 off = true
      | _ => False
-     end.
+     end
+  (* the oracle rejects the same path handed to two clients *)
+  /\ C15_pather_round_ok [(0, 5)]
+       [ {| ob_ilv := false; ob_fp := 0; ob_filter := true; ob_hops := [0]; ob_resets := 1; ob_first := 0; ob_vals := [11] |};
+         {| ob_ilv := false; ob_fp := 0; ob_filter := true; ob_hops := [0]; ob_resets := 1; ob_first := 0; ob_vals := [22] |} ] 0 16 = false.
 Proof. vm_compute. repeat split; reflexivity. Qed.
